@@ -9,6 +9,7 @@ import Std.Data.HashSet
     V            -> [`D <blocked threads>`] `V <DONE|DEADLOCK|RUNNING> steps=<n>`
     F            -> final summary line (same fields as the harness prints)
     X <max states> <cfg fields and scripts as for cfg>  -> exhaustive micro-step exploration of the model (test)
+    W <walks> <seed> <cfg ...>  -> random micro-step walks of the model (test)
     M            -> `M <t,t,...>`: the schedule of MICRO-steps executed so far (for `runSched`)
   The output has the format of the harness trace, so the two streams are compared verbatim.
 -/
@@ -285,6 +286,32 @@ partial def exploreLoop (maxStates : Nat) (stack : List (State × List Tid)) (se
           ((s'', t :: path) :: stk, seen.insert h, st)) (rest, seen, st)
     exploreLoop maxStates stack' seen' st'
 
+/-- random walks over micro-step schedules of the model (a TEST; xorshift PRNG) -/
+def xorshift (x : UInt64) : UInt64 :=
+  let x := x ^^^ (x <<< 13)
+  let x := x ^^^ (x >>> 7)
+  x ^^^ (x <<< 17)
+
+partial def walkOne (s : State) (rng : UInt64) (n : Nat) (path : List Tid) (maxSteps : Nat) : (String × Nat × List Tid × UInt64) :=
+  if n ≥ maxSteps then ("bound", n, path, rng) else
+  if s.fault.isSome then ("fault " ++ s.fault.getD "", n, path, rng) else
+  let ts := (List.range s.nthreads).filter (fun t => enabled s t)
+  if ts.isEmpty then ((if livePresent s then "deadlock" else "done"), n, path, rng)
+  else
+    let rng := xorshift rng
+    let t := ts.getD (rng.toNat % ts.length) 0
+    match step s t with
+    | some (s', _) => walkOne (if (n + 1) % 64 = 0 then compact s' else s') rng (n + 1) (t :: path) maxSteps
+    | none => ("stuck-step", n, path, rng)
+
+partial def walkMany (cfg : Config) (k : Nat) (rng : UInt64) (done dead faults bounds steps : Nat) (bad : Option (String × List Tid)) :
+    Nat × Nat × Nat × Nat × Nat × Option (String × List Tid) :=
+  if k = 0 then (done, dead, faults, bounds, steps, bad) else
+  let (v, n, path, rng') := walkOne (State.init cfg) rng 0 [] 200000
+  let bad' := if v = "done" || v = "bound" then bad else bad.orElse (fun _ => some (v, path.reverse))
+  walkMany cfg (k - 1) (xorshift (rng' + 0x9E3779B97F4A7C15)) (done + (if v = "done" then 1 else 0)) (dead + (if v = "deadlock" then 1 else 0))
+    (faults + (if v.startsWith "fault" then 1 else 0)) (bounds + (if v = "bound" then 1 else 0)) (steps + n) bad'
+
 def faultLines (s : State) : List String :=
   match s.fault with
   | some m => [s!"MODEL-FAULT {m}"]
@@ -346,6 +373,15 @@ def stepLine (d : DState) (ws : List String) : DState × String :=
         | none => ""
       (d, s!"X states={r.states} transitions={r.transitions} terminal={r.terminal} deadlocks={r.deadlocks} faults={r.faults} double={r.doubleExec} truncated={if r.truncated then 1 else 0}{bad}")
     | _, _ => (d, "bad-op")
+  | "W" :: walks :: seed :: rest =>
+    match parseCfg rest, walks.toNat?, seed.toNat? with
+    | some cfg, some k, some sd =>
+      let (dn, dead, faults, bounds, steps, bad) := walkMany cfg k (UInt64.ofNat (sd * 2654435761 + 88172645463325252)) 0 0 0 0 0 none
+      let b := match bad with
+        | some (w, p) => s!" first-bad={w} schedule={",".intercalate (p.map toString)}"
+        | none => ""
+      (d, s!"W walks={k} done={dn} deadlocks={dead} faults={faults} bound={bounds} steps={steps}{b}")
+    | _, _, _ => (d, "bad-op")
   | ["M"] => (d, "M " ++ ",".intercalate (d.micro.reverse.map toString))
   | ["F"] =>
     match d.st with
